@@ -11,6 +11,7 @@ import (
 	"runtime"
 	"strings"
 	"sync"
+	"sync/atomic"
 	"time"
 
 	"github.com/rogpeppe/go-internal/testscript"
@@ -149,12 +150,14 @@ type outcome struct {
 	// the companion script of the run (same entry names, nothing to update): what became of its file
 	CompanionBefore, CompanionAfter []byte
 	CompanionVerdict                string
-	Verdict   string
-	Panic     string
-	Log       string
-	After     []byte
-	Rewritten bool // the modification time of the script file changed
+	Verdict                         string
+	Panic                           string
+	Log                             string
+	After                           []byte
+	Rewritten                       bool // the modification time of the script file changed
 }
+
+var uniqSeq int64
 
 var longAgo = time.Date(2001, 2, 3, 4, 5, 6, 0, time.UTC)
 
@@ -179,6 +182,17 @@ func companionOf(orig []byte) []byte {
 }
 
 func (r *runner) runFiles(file string, update bool, companion []byte) (o outcome) {
+	uniqueNames := false
+	if b, err := os.ReadFile(file); err == nil && atomic.AddInt64(&uniqSeq, 1)%2 == 0 {
+		seen := map[string]bool{}
+		uniqueNames = true
+		for _, f := range txtar.Parse(b).Files {
+			if seen[f.Name] {
+				uniqueNames = false
+			}
+			seen[f.Name] = true
+		}
+	}
 	if err := os.Chtimes(file, longAgo, longAgo); err != nil {
 		vutil.Fatalf("chtimes: %v", err)
 	}
@@ -194,6 +208,8 @@ func (r *runner) runFiles(file string, update bool, companion []byte) (o outcome
 	p := testscript.Params{
 		Files:         files,
 		UpdateScripts: update,
+		// (entry names are unique in all variants but dup: asking for that changes nothing, least of all the rewrite)
+		RequireUniqueNames: uniqueNames,
 		Setup: func(env *testscript.Env) error {
 			env.Setenv("PATH", r.binDir+string(os.PathListSeparator)+env.Getenv("PATH"))
 			env.Setenv(tableEnv, r.table)
